@@ -30,3 +30,19 @@ Print Assumptions null_coefficient_stays_null_l1.
 Theorem zero_constant_iff_null_column : forall c, sqnorm c = 0 -> Forall (fun x => x = 0) c.
 Proof. exact sqnorm_zero_all. Qed.
 Print Assumptions zero_constant_iff_null_column.
+
+(* all-zero columns in CSC storage are treated exactly as in dense storage (step 1000, coefficient pushed through the prox):
+   the regenerated sparse epoch equals the dense epoch, for which the totality / null-coefficient theorems above are stated *)
+Require Import SK.Lemmas.Csc SK.Lemmas.SparseEpoch SK.Gen.SparseOps.
+Theorem sparse_epoch_treats_null_columns_like_dense : forall (prox_1d : R -> R -> Z -> res R)
+    (g_dense : list (list R) -> list R -> list R -> list R -> Z -> res R)
+    (g_sparse : list R -> list Z -> list Z -> list R -> list R -> Z -> res R) (n : nat) (M : csc) (X : list (list R)) (y lc : list R),
+  (forall j, (0 <= j < Z.of_nat (length X))%Z ->
+     exists lo hi, col_bounds M j lo hi /\ wf_col n M lo hi /\ mcol X j = Ok (dense_col n M lo hi)) ->
+  (forall w Xw j, (0 <= j < Z.of_nat (length X))%Z -> length Xw = n ->
+     g_sparse (cdata M) (cindptr M) (cindices M) y Xw j = g_dense X y w Xw j) ->
+  forall ws w Xw, Forall (fun j => (0 <= j < Z.of_nat (length X))%Z) ws -> length Xw = n ->
+  @_cd_epoch_sparse R _ g_sparse prox_1d (cdata M) (cindptr M) (cindices M) y w Xw lc ws
+  = @_cd_epoch R _ prox_1d g_dense X y w Xw lc ws.
+Proof. exact cd_epoch_sparse_eq_dense. Qed.
+Print Assumptions sparse_epoch_treats_null_columns_like_dense.
